@@ -88,6 +88,22 @@ var stringContexts = []litContext{
 	{"loop-variable-after-raw", func(q string) string {
 		return "@each(e in [" + q + "]){{ e.raw().len() }}[[{{ e }}]]@end"
 	}, func(l string) string { return l }, false},
+	// the literal inside every kind of branch, next to empty sibling bodies; a stored literal outlives a nested block
+	// that assigns another one to the name
+	{"in-elseif-after-empty-if", func(q string) string { return "@if(false)@elseif(true)[[{{ " + q + " }}]]@end" }, func(l string) string { return l }, false},
+	{"in-second-elseif-after-empty-bodies", func(q string) string { return "@if(false)@elseif(0)@elseif(1)[[{{ " + q + " }}]]@else@end" }, func(l string) string { return l }, false},
+	{"in-else-after-empty-bodies", func(q string) string { return "@if(false)@elseif(false)@else[[{{ " + q + ".raw() }}]]@end" }, func(l string) string { return l }, true},
+	{"in-each-else-after-empty-body", func(q string) string { return "@each(e in [])@else[[{{ " + q + " }}]]@end" }, func(l string) string { return l }, false},
+	{"in-for-else-after-empty-body", func(q string) string { return "@for(k = 0; k < 0; k++)@else[[{{ " + q + " }}]]@end" }, func(l string) string { return l }, false},
+	{"stored-then-elseif-assigns-another", func(q string) string {
+		return "{{ v = " + q + " }}@if(false)@elseif(true){{ v = \"<other>&\" }}@end[[{{ v }}]]"
+	}, func(l string) string { return l }, false},
+	{"stored-then-else-assigns-another", func(q string) string {
+		return "{{ v = " + q + " }}@if(false)x@else{{ v = '<other>' }}{{ w = v.raw() }}@end[[{{ v.raw() }}]]"
+	}, func(l string) string { return l }, true},
+	{"stored-then-loops-assign-another", func(q string) string {
+		return "{{ v = " + q + " }}@each(e in [1, 2]){{ v = \"<e>\" }}@end@for(k = 0; k < 2; k++){{ v = \"<k>\" }}@end@each(e in [])@else{{ v = \"<n>\" }}@end[[{{ v }}]]"
+	}, func(l string) string { return l }, false},
 	{"raw", func(q string) string { return "[[{{ " + q + ".raw() }}]]" }, func(l string) string { return l }, true},
 	{"raw-concat", func(q string) string { return "[[{{ (" + q + " + " + q + ").raw() }}]]" }, func(l string) string { return l + l }, true},
 	{"raw-assigned", func(q string) string { return "{{ v = " + q + " }}[[{{ v.raw() }}]]" }, func(l string) string { return l }, true},
